@@ -284,6 +284,34 @@ def run_trans(ctx, rng, idx):
                     break
         if len(rows) >= 3 and any(len(e_) == 0 for e_ in exp):
             ctx.nontriv('trans', form, tuple(tuple(r.tolist()) for r in rows))
+    # the per-trajectory table built on top of it
+    if form != '1d' and idx % 2 == 0:
+        nfeat = int(rng.integers(1, 4))
+        rt = [np.stack([seq(len(r), rng.random() < 0.3)
+                        for _ in range(nfeat)], axis=1).astype(np.int16)
+              for r in rows]
+        try:
+            tts, mo, md_ = disorder.transition_stats([x.copy() for x in rt])
+            ctx.count('transition_stats_checked')
+            okk = len(tts) == len(rt)
+            for i, x in enumerate(rt):
+                for j in range(nfeat):
+                    e_ = np.where(x[1:, j] != x[:-1, j])[0]
+                    if not okk or not np.array_equal(
+                            np.asarray(tts[i][j]).astype(int), e_):
+                        okk = False
+                        ctx.violation(
+                            'transition_stats.wrong',
+                            'trajectory %d feature %d: transition frames %s, '
+                            'consecutive states differ at %s' % (
+                                i, j, np.asarray(tts[i][j]).tolist()
+                                if len(tts) > i and len(tts[i]) > j else None,
+                                e_.tolist()))
+                        break
+                if not okk:
+                    break
+        except Exception as e:  # noqa
+            ctx.crash('transition_stats.raised', e)
     if idx % 800 == 0:
         ctx.sample(desc)
 
